@@ -14,6 +14,7 @@ import (
 	"fmt"
 	"runtime"
 	"sort"
+	"strings"
 	"sync"
 	"sync/atomic"
 
@@ -411,13 +412,20 @@ func decodeOnce(v *val, p *plan, mode csproto.DecoderMode) (kind, msg string) {
 	buf := append([]byte{}, p.exp...) // private copy: fast mode may alias
 	d := csproto.NewDecoder(buf)
 	d.SetMode(mode)
+	nestedDone := false
 	for _, f := range p.fields {
 		tag, wt, err := d.DecodeTag()
 		if err != nil {
-			return "harness-tag-error", err.Error() // C01's business, but it blocks this case
+			if nestedDone {
+				return "following-key-unreadable", "DecodeTag after the nested field: " + err.Error()
+			}
+			return "precondition-DecodeTag-error", err.Error() // C01's business, but it blocks this case
 		}
 		if tag != f.num {
-			return "tag-mismatch", fmt.Sprintf("tag %d, expected %d (a preceding field consumed the wrong amount)", tag, f.num)
+			if nestedDone {
+				return "following-key-mismatch", fmt.Sprintf("tag %d after the nested field, expected %d", tag, f.num)
+			}
+			return "precondition-DecodeTag-mismatch", fmt.Sprintf("tag %d, expected %d", tag, f.num)
 		}
 		switch f.kind {
 		case fU:
@@ -463,6 +471,7 @@ func decodeOnce(v *val, p *plan, mode csproto.DecoderMode) (kind, msg string) {
 			if !rtEqual(v.rt, fr, ref) {
 				return "message-not-equal", "decoded message differs from the original per the owning runtime's Equal"
 			}
+			nestedDone = true
 		}
 	}
 	if d.Offset() != len(p.exp) || d.More() {
@@ -477,6 +486,14 @@ type encErrCase struct {
 	name string
 	mk   func() any
 	want []error // the error must satisfy errors.Is for one of these; empty: any non-nil error
+}
+
+// sigName drops the "/sizeN" suffix of an error-case name: the size belongs to the case id, not the class.
+func sigName(name string) string {
+	if i := strings.Index(name, "/size"); i >= 0 {
+		return name[:i]
+	}
+	return name
 }
 
 func isAny(err error, targets []error) bool {
@@ -511,13 +528,13 @@ func checkEncodeErrors(r *ev.Run, fieldNums []int) (n int64) {
 				switch {
 				case pan != "":
 					dt.Msg = pan
-					r.Fail("EncodeNested/"+c.name+"/panic", id, dt)
+					r.Fail("EncodeNested/"+sigName(c.name)+"/panic", id, dt)
 				case err == nil:
 					dt.Msg = "EncodeNested returned nil although the nested message cannot be marshalled"
-					r.Fail("EncodeNested/"+c.name+"/error-not-propagated", id, dt)
+					r.Fail("EncodeNested/"+sigName(c.name)+"/error-not-propagated", id, dt)
 				case !isAny(err, c.want):
 					dt.Msg = fmt.Sprintf("returned %q, expected errors.Is one of %q", err, c.want)
-					r.Fail("EncodeNested/"+c.name+"/error-replaced", id, dt)
+					r.Fail("EncodeNested/"+sigName(c.name)+"/error-replaced", id, dt)
 				}
 			}
 		}
@@ -553,13 +570,13 @@ func checkDecodeErrors(r *ev.Run, fieldNums []int) (n int64) {
 					switch {
 					case pan != "":
 						dt.Msg = pan
-						r.Fail("DecodeNested/"+c.name+"/panic", id, dt)
+						r.Fail("DecodeNested/"+sigName(c.name)+"/panic", id, dt)
 					case err == nil:
 						dt.Msg = "DecodeNested returned nil although the nested message cannot be unmarshalled"
-						r.Fail("DecodeNested/"+c.name+"/error-not-propagated", id, dt)
+						r.Fail("DecodeNested/"+sigName(c.name)+"/error-not-propagated", id, dt)
 					case c.want != nil && !errors.Is(err, c.want):
 						dt.Msg = fmt.Sprintf("returned %q, expected errors.Is(%q)", err, c.want)
-						r.Fail("DecodeNested/"+c.name+"/error-replaced", id, dt)
+						r.Fail("DecodeNested/"+sigName(c.name)+"/error-replaced", id, dt)
 					}
 				}
 			}
@@ -575,14 +592,14 @@ func main() {
 	r := ev.Start("C19", "exploration")
 	thorough := r.Thorough()
 
-	fieldNums := []int{1, 16, 1<<29 - 1}
-	scals := []scal{{0, "", 0}, {^uint64(0), "h\xc3\xa9llo\x00", 0xDEADBEEF}}
+	fieldNums := []int{1, 15, 16, 2047, 2048, 1<<29 - 1}
+	scals := []scal{{0, "", 0}, {^uint64(0), "h\xc3\xa9llo\x00", 0xDEADBEEF}, {128, str(128), 1}, {1, "a", 0xFFFFFFFF}}
 	largeNums := []bool{false}
 	if thorough {
 		fieldNums = []int{1, 15, 16, 2047, 2048, 1<<21 - 1, 1 << 21, 1<<28 - 1, 1 << 28, 1<<29 - 1}
 		scals = nil
-		for _, u := range []uint64{0, 1, 127, 128, ^uint64(0)} {
-			for _, s := range []string{"", "a", str(128)} {
+		for _, u := range []uint64{0, 128, ^uint64(0)} {
+			for _, s := range []string{"", str(128)} {
 				for _, f := range []uint32{0, 0xFFFFFFFF} {
 					scals = append(scals, scal{u, s, f})
 				}
